@@ -199,6 +199,45 @@ def grpkLine (ws : List String) : String :=
     | _, _, _, _ => "bad-op"
   | _ => "bad-op"
 
+/-- `grpd <n> <gid> <ids1> <ids2> <share|noshare> <lastRand>`: announce, key generation completed or
+not, dissolve event, re-announce in another order (key generation again if the id is accepted), request
+event – at every member, over the node-level table `Eval.NodeSt` -/
+def grpdLine (ws : List String) : String :=
+  match ws with
+  | [n, gid, ids1, ids2, mode, r] =>
+    match n.toNat?, gid.toNat?, Query.hexList ids1, Query.hexList ids2, r.toNat? with
+    | some n, some gid, some ids1, some ids2, some r =>
+      let share := mode == "share"
+      let indexIn (l : List Bytes) (x : Bytes) : String :=
+        let rec go : List Bytes → Nat → String
+          | [], _ => "?"
+          | y :: ys, i => if y = x then toString i else go ys (i + 1)
+        go l 0
+      String.intercalate " " ((List.range n).map (fun k =>
+        let me := ids1.getD k []
+        let ops1 : List Eval.NodeOp :=
+          [.grouping gid ids1] ++ (if share then [.certified gid] else []) ++ [.dissolve gid]
+        let st1 := Eval.NodeSt.run me ops1
+        -- the second key generation runs only where the id was accepted again
+        let st2 := Eval.NodeSt.apply me st1 (.grouping gid ids2)
+        let st3 := if share then Eval.NodeSt.apply me st2 (.certified gid) else st2
+        let after := match Eval.Book.ids st1.book gid with
+          | some _ => "kept"
+          | none => "gone"
+        let fin := match Eval.Book.ids st3.book gid with
+          | none => "none"
+          | some l =>
+            match submitter l r with
+            | some id => s!"n={l.length} id " ++ toHex id
+            | none => "panic div0"
+        let hasShare := decide (gid ∈ st3.shares)
+        let req := match Eval.NodeSt.submitterOf st3 gid r with
+          | none => "-"
+          | some sub => if sub = me then "-" else "to=" ++ indexIn ids2 sub
+        s!"{k}:{after} {fin} share={if hasShare then 1 else 0} req={req}"))
+    | _, _, _, _, _ => "bad-op"
+  | _ => "bad-op"
+
 /-- one event of an `evs` line that starts a pipeline: the chain event (C01's event layer,
 `Query.requestOf`) and, for a URL query, what fetch + parse give -/
 def parseEvent (tok : String) : Option (Option Query.Event) :=
@@ -294,6 +333,7 @@ def stepLine (padSize addrLen maxDoc : Nat) (line : String) : Option String :=
   | "pm" :: rest => some (pmLine padSize addrLen maxDoc rest)
   | "fetch" :: rest => some (fetchLine maxDoc rest)
   | "grpk" :: rest => some (grpkLine rest)
+  | "grpd" :: rest => some (grpdLine rest)
   | "depth" :: rest => some (depthLine Eval.maxDocumentDepth rest)
   | "evs" :: rest => some (evsLine padSize addrLen rest)
   | _ => none
